@@ -35,7 +35,16 @@ def generic_case(rng: random.Random, max_len: int = 60, allow_nondelimited: bool
         cfg["frame_size"] = 250
     # a batching caller: frames from the generator entry points are gathered in a list before being written
     cfg["collect"] = entry in ("flat_frames", "stream_frames_sink", "stream_frames_gen") and rng.random() < 0.4
+    _maybe_transport(cfg, stmts)
     return cfg, stmts, ns
+
+
+def _maybe_transport(cfg: dict, stmts: list) -> None:
+    """One case in twelve: the options object reaches the writer as a copy / deep copy / pickle round trip of what the
+    caller configured.  (Drawn from a hash of the case, so that the case's own random stream is not disturbed.)"""
+    r = gen.rng_for("options-transport", sorted((k, repr(v)) for k, v in cfg.items()), len(stmts))
+    if r.random() < 1 / 12:
+        cfg["options_transport"] = r.choice(["copy", "deepcopy", "pickle"])
 
 
 def rdflib_case(rng: random.Random, max_len: int = 40) -> tuple[dict, list, list]:
@@ -64,6 +73,7 @@ def rdflib_case(rng: random.Random, max_len: int = 40) -> tuple[dict, list, list
         "ns": False, "stream_name": "",
         "collect": entry in ("flat_frames", "stream_frames_gen", "stream_frames_store") and rng.random() < 0.4,
     }
+    _maybe_transport(cfg, stmts)
     return cfg, stmts, []
 
 
